@@ -41,28 +41,34 @@ def run_harness(R, n, seed, tag="", ops=None):
 
 
 def case_ops(trace_lines, caseid):
-    """the thread count and the `ev` lines of one case of a trace"""
-    ops, on, threads = [], False, 1
+    """the configuration header (thread count, dead-nonce lifetime, FIB implementation) and the `ev` lines of one case of a trace"""
+    ops, on, hdr = [], False, ["threads 1"]
     for l in trace_lines:
         if l.startswith("case "):
             on = (l == "case " + caseid)
             continue
         if on and l.startswith("cfg "):
+            hdr = []
             m = re.search(r"threads=(\d+)", l)
-            if m:
-                threads = int(m.group(1))
+            hdr.append("threads %d" % (int(m.group(1)) if m else 1))
             m = re.search(r"dnl=(\d+)", l)
             if m and int(m.group(1)) != 6000000000:
-                threads = (threads, int(m.group(1)) // 1000000)   # (threads, dead-nonce lifetime in ms)
+                hdr.append("dnl %d" % (int(m.group(1)) // 1000000))
+            m = re.search(r"fibm=(\d+)", l)
+            if m and int(m.group(1)) > 0:
+                hdr.append("fibm %d" % int(m.group(1)))
         if on and l.startswith("ev "):
             ops.append(l)
-    return threads, ops
+    return hdr, ops
 
 
-def ops_text(threads, ops):
-    """threads is the thread count, or (thread count, dead-nonce lifetime in ms) when that is not the default"""
-    hdr = "threads %d\n" % threads if isinstance(threads, int) else "threads %d\ndnl %d\n" % tuple(threads)
-    return "case 0\n" + hdr + "\n".join(ops) + "\n"
+def ops_text(hdr, ops):
+    """hdr: list of header lines (or, from older replay files, a thread count / a (threads, dnl ms) pair)"""
+    if isinstance(hdr, int):
+        hdr = ["threads %d" % hdr]
+    elif hdr and isinstance(hdr[0], int):
+        hdr = ["threads %d" % hdr[0], "dnl %d" % hdr[1]]
+    return "case 0\n" + "\n".join(hdr) + "\n" + "\n".join(ops) + "\n"
 
 
 def runner_on(exe, trace, prop):
